@@ -147,9 +147,9 @@ def bound(prog, descs):
     return total
 
 
-def run_prog(objs, prog, cap=10 ** 9):
+def run_prog(objs, prog, cap=10 ** 9, enc=lambda v: None):
     """-> dict(ev=[(op, obs)], raised=None | dict(...), runaway=bool).  op: ('new', k, (o, axis)) | ('next', k) | ('index', (o, axis), sel)
-    | ('len', (o, axis)); obs: ('none',) | ('item', obj) | ('stop',) | ('err',) | ('num', n)"""
+    | ('len', (o, axis)); obs: ('none',) | ('item', obj, enc(obj) at that moment) | ('stop',) | ('err',) | ('num', n)"""
     class Ev(list):
         def append(self, e):
             if len(self) >= cap:
@@ -169,7 +169,7 @@ def run_prog(objs, prog, cap=10 ** 9):
         ev.append((("new", k, (src[0], src[1])), ("none",)))
 
     def item(k, v):
-        ev.append((("next", k), ("item", v)))
+        ev.append((("next", k), ("item", v, enc(v))))
 
     def stop(k):
         ev.append((("next", k), ("stop",)))
@@ -220,7 +220,7 @@ def run_prog(objs, prog, cap=10 ** 9):
             except base.REJECT:
                 ev.append((op, ("err",)))
                 return
-            ev.append((op, ("item", v)))
+            ev.append((op, ("item", v, enc(v))))
         elif kind == "len":
             src = node[1]
             op = ("len", (src[0], src[1]))
@@ -313,7 +313,7 @@ def enc_op(op):
     return "(CLen %s)" % enc_src(op[1])
 
 
-def enc_obs(ob, cache):
+def enc_obs(ob):
     if ob[0] == "none":
         return "BNone"
     if ob[0] == "stop":
@@ -322,7 +322,7 @@ def enc_obs(ob, cache):
         return "BErr"
     if ob[0] == "num":
         return "(BNum %s)" % fq.nat(ob[1])
-    return "(BItem %s)" % cache[id(ob[1])]
+    return "(BItem %s)" % ob[2]
 
 
 def text_op(op, names):
@@ -531,18 +531,12 @@ def evaluate(ctx, case, idx):
     spec, prog = case["spec"], case["prog"]
     objs, descs = make_objects(spec)
     before = [base.enc_val(o) for o in objs]
-    res = run_prog(objs, prog, cap=bound(prog, descs) + 5)
+    res = run_prog(objs, prog, cap=bound(prog, descs) + 5, enc=base.enc_val)
     ev = res["ev"]
     # the model's objects: from the constructor arguments, on fresh objects (not the ones the program used)
     fresh, _ = make_objects(spec)
     obj_terms = [base.enc_val(o) for o in fresh]
     info = dict(idx=idx, case=case, raised=res["raised"], runaway=res["runaway"], ev=ev, names=names_of(spec), descs=descs, problems=[])
-    cache = {}
-    first_seen = {}
-    for j, (op, ob) in enumerate(ev):
-        if ob[0] == "item" and id(ob[1]) not in cache:
-            cache[id(ob[1])] = base.enc_val(ob[1])
-            first_seen[id(ob[1])] = (j, ob[1])
     # cursor -> source at every step; the class of an item is the class of its container
     srcmap, cur_src = [], {}
     for op, ob in ev:
@@ -555,8 +549,8 @@ def evaluate(ctx, case, idx):
             info["problems"].append(("item-wrong-class", j, "%s.%s gave a %s" % (type(objs[srcmap[j][0]]).__name__, srcmap[j][1],
                                                                                    type(ob[1]).__name__)))
     # items are values: what was yielded at step j is still the same at the end of the program
-    for key, (j, v) in first_seen.items():
-        if base.enc_val(v) != cache[key]:
+    for j, (op, ob) in enumerate(ev):
+        if ob[0] == "item" and base.enc_val(ob[1]) != ob[2]:
             info["problems"].append(("yielded-item-changed-later", j, "the container obtained at step %d was changed by a later step" % j))
     after = [base.enc_val(o) for o in objs]
     for o, (a, b) in enumerate(zip(before, after)):
@@ -565,7 +559,7 @@ def evaluate(ctx, case, idx):
     if before != obj_terms:
         info["problems"].append(("harness", None, "objects built twice from one description differ"))
     info["term"] = "c17_cursor_case %s %s %s" % (fq.lst(obj_terms), fq.lst([enc_op(op) for op, _ in ev]),
-                                                 fq.lst([enc_obs(ob, cache) for _, ob in ev]))
+                                                 fq.lst([enc_obs(ob) for _, ob in ev]))
     # bookkeeping
     t0 = ctype(descs[0])
     live = max_live(ev)
